@@ -83,6 +83,11 @@ func (s *Service) BeaconBlockHeader(ctx context.Context,
 
 				return
 			}
+			if response == nil || response.Data == nil {
+				// A response without data is not a response we can use.
+				log.Warn().Dur("elapsed", time.Since(started)).Msg("Obtained empty beacon block header response; ignoring")
+				return
+			}
 			log.Trace().Str("provider", name).Dur("elapsed", time.Since(started)).Msg("Obtained beacon block header")
 
 			ch <- &beaconBlockHeaderResp{
